@@ -420,3 +420,63 @@ def check_cost_general(ctx, res, config="all"):
         res.fail(Finding("R8-regime-structure", "unknown-regime", "cannot derive a cost recurrence for the regime reached at lengths %s (calls=%s, split divisors=%s, x split=%s)" % (rc.unknown[:2], rc.unknown[2], rc.unknown[3], rc.unknown[4]), b))
     res.count("R8 distinct (n,m) regimes evaluated", len(rc.sig_memo))
     res.clause("R8 (general): for every (|x|,|y|) the regime is obtained by deciding mac3's own length comparisons; the resulting recurrence satisfies the same inequalities; mac_digit is called from mac3 only")
+
+
+def check_shorter_first(ctx, res, config="all"):
+    """mac3's regimes assume |x| <= |y| (Karatsuba splits y at |x|/2, Toom-3 sizes the thirds from y): x and y must be chosen by
+    comparing the lengths of exactly the slices the regimes then see - no narrowing of x or y after the choice"""
+    facts = ctx.facts(config)
+    b = facts.body("biguint::multiplication::mac3")
+    if b is None:
+        res.fail(Finding("R8-anchor-lost", "mac3", "mac3 not found", file="src/biguint/multiplication.rs", line=0))
+        return
+    tl, atoms = tests_of(b)
+    # the ordering test: Lt/Le/Gt/Ge between two len() results of *different* slices
+    sel = None
+    for t in tl:
+        c = t.cond
+        if c is not None and c.kind == "cmp" and c.op in ("Lt", "Le", "Gt", "Ge") and calls_of(c.a) >= {"len"} and calls_of(c.b) >= {"len"} and not consts_of(c.a) - {0} and not consts_of(c.b) - {0}:
+            pa, pb = params_of(c.a), params_of(c.b)
+            if pa and pb and pa != pb:
+                sel = t
+                break
+    if sel is None:
+        res.fail(Finding("R8-shorter-first", b.path, "no comparison of the two operand lengths that selects (shorter, longer)", b))
+        return
+    # tuples built on the two edges
+    tups = [(i, si, s) for i, si, s in b.stmts() if s["k"] == "assign" and s["rv"]["k"] == "aggregate" and s["rv"].get("akind") == "tuple" and len(s["rv"]["ops"]) == 2 and b.block_dominates(sel.bb, i) and i in (sel.t, sel.f)]
+    if len(tups) != 2:
+        res.fail(Finding("R8-shorter-first", b.path, "the (shorter, longer) pair is not built directly on the two outcomes of the length comparison", b))
+        return
+    tl_local = tups[0][2]["place"]["local"]
+    errs = []
+    # shorter operand first on both edges
+    fl = core.Flow(b)
+    c = sel.cond
+    la = fl.roots_of_operand(c.ra)
+    for (i, si, s) in tups:
+        on_true = i == sel.t
+        first = fl.roots_of_operand(s["rv"]["ops"][0])
+        firstp = {r[1] for r in first if r[0] == "param"}
+        pa, pb = params_of(c.a), params_of(c.b)
+        a_shorter = (c.op in ("Lt", "Le")) == on_true  # on this edge, is operand `a` of the comparison the shorter one?
+        want = pa if a_shorter else pb
+        if firstp != want:
+            errs.append("on the %s edge of the length comparison the longer operand is put first" % ("true" if on_true else "false"))
+    # x, y are not narrowed afterwards: the locals read from the pair have no other definition, and the regime tests read them
+    xs = [s["place"]["local"] for i, si, s in b.stmts() if s["k"] == "assign" and s["rv"]["k"] == "use" and core.op_place(s["rv"]["op"]) and core.op_place(s["rv"]["op"])["local"] == tl_local and core.op_place(s["rv"]["op"])["proj"]]
+    for x in xs:
+        ds = b.defs().get(x, [])
+        if len(ds) != 1:
+            errs.append("operand slice `%s` is re-assigned after the (shorter, longer) choice: the regimes may see |x| > |y|" % (b.locals[x].get("name") or "_%d" % x))
+    # the slices compared must be the final ones: no definition of the compared parameters' slices after the comparison
+    for p in sorted(params_of(c.a) | params_of(c.b)):
+        for d in b.defs().get(p, []):
+            blk = d[1]
+            if blk in b.reachable(sel.bb) and blk != sel.bb:
+                errs.append("operand %d is narrowed after the length comparison" % p)
+    if errs:
+        res.fail(Finding("R8-shorter-first", b.path, "; ".join(sorted(set(errs))), b))
+    else:
+        res.ok("R8-shorter-first", b.path, {"selection": "lengths compared after low-zero stripping; shorter first on both edges; x, y single-assignment"})
+    res.clause("C02: mac3 orders its operands (shorter, longer) by the lengths the regimes actually see (after stripping low zero digits, no later narrowing)")
